@@ -407,6 +407,12 @@ def run(ctx):
     rng = ctx.rng
     n_calls = 350 if ctx.quick else 6000
     n_prim = 400 if ctx.quick else 8000
+    if ctx.driver_ok:
+        # Props/C01LowerOps.lean: the lowering models of elementwise operations and reductions against really traced graphs,
+        # with the recomputed instances of lower_elementwise_correct / lower_reduce_correct (a difference is a broken tie)
+        from props import lower_tie
+        from props.c17 import SizedCall, variants
+        lower_tie.lower_tie(ctx, 24 if ctx.quick else 400, SizedCall, variants)
     if ctx.broken:
         n_calls *= 3
     ctx.extra["rule"] = ("grammar-directed einx calls (id with grouping/diagonal/1-axes/broadcast/concat/ellipsis, reductions, elementwise, dot, get_at, argmax/argmin, "
